@@ -225,3 +225,43 @@ def fmt_group(g, order=None):
     for t, ps in topics:
         parts += [str(t), str(len(ps))] + [fmt_part(p) for p in ps]
     return " ".join(parts)
+
+
+def f32bits(x):
+    import struct
+    return struct.unpack(">I", struct.pack(">f", x))[0]
+
+
+def gen_gate_group(rng, idx):
+    """C03's completeness gate and nil-prefix slicing, boundary-directed: one topic, 1-3 partitions whose window has k of N
+    slots filled, minimum-complete placed at (k-1)/N, k/N, (k+1)/N (as float32, the way Configure computes it) or at
+    1.0 / just below / 0; windows are pushed towards not-OK (lag above allowed, old timestamps or flat offsets) so that the
+    gate decides the visible status."""
+    intervals = rng.choice([1, 2, 3, 4, 5, 10, 10])
+    allowed = rng.choice([0, 0, 1, 10])
+    now = 1600000000 + rng.randrange(0, 10**6)
+    k = rng.randrange(1, intervals + 1)
+    d = rng.choice([-1, 0, 0, 0, 1])
+    kk = max(0, min(intervals, k + d))
+    minimum = f32bits(kk / intervals)
+    if rng.random() < 0.1:
+        minimum = rng.choice([0x3F800000, 0x3F7FFFFF, 0, 0x3F800001])
+    parts = []
+    for pi in range(rng.choice([1, 1, 2, 3])):
+        kf = k if pi == 0 else rng.randrange(1, intervals + 1)
+        w = base_window(rng, kf)
+        flavour = rng.choice(["stall", "stop", "warn", "any"])
+        if flavour == "stall":
+            for o in w:
+                o[0] = w[0][0]
+        age = rng.choice([0, 1000, 10**6]) if flavour != "stop" else 10**7
+        shift = now * 1000 - w[-1][2] - age
+        for o in w:
+            o[2] += shift
+        offs = [None] * (intervals - kf) + [tuple(o) for o in w]
+        last = w[-1][0]
+        brokers = [last + rng.choice([100, 1000, 10**6]) for _ in range(rng.randrange(1, 4))]
+        curlag = max(allowed + 1, brokers[-1] - last)
+        parts.append((rng.choice([0, 1]), 0, curlag, brokers, offs))
+    tags = ["gate:min=%s" % ("k/N%+d/N" % d if minimum == f32bits(kk / intervals) else "special"), "N=%d" % intervals]
+    return dict(minimum=minimum, allowed=allowed, now=now, topics=[(1, parts)], intervals=intervals), tags
